@@ -128,7 +128,34 @@ def cls_data_label_offset(case):
     return _head(line) in ('pack', 'db', 'dh', 'dw', 'dd') and '%offset' in line
 
 
+TRANSFERS = ('beq', 'bne', 'blt', 'bge', 'bltu', 'bgeu', 'beqz', 'bnez', 'blez', 'bgez', 'bltz', 'bgtz', 'bgt', 'ble', 'bgtu', 'bleu',
+             'j', 'jal', 'call', 'tail')
+
+
+def cls_transfer_across_align(case):
+    """KF-F (-c): the failing line is a branch / jump to a label in a program that contains an `align N` with N >= 4:
+    alignment padding is not monotone in what precedes it, so a distance across an align can GROW when code shrinks"""
+    if not case.get('compress', True):
+        return False
+    line = _failing_line(case)
+    if _head(line) not in TRANSFERS:
+        return False
+    toks = re.split(r'[\s,()]+', line.strip())
+    if not toks or toks[-1] not in _label_names(case):
+        return False
+    for l in _program_lines(case):
+        t = l.split('#')[0].split()
+        if len(t) == 2 and t[0].lower() == 'align':
+            try:
+                if int(t[1], 0) >= 4:
+                    return True
+            except ValueError:
+                pass
+    return False
+
+
 CLASSES = {
+    'transfer-across-align': cls_transfer_across_align,
     'data-label-offset': cls_data_label_offset,
     'odd-layout': cls_odd_layout,
     'program-label-imm': cls_program_label_imm,
